@@ -44,7 +44,12 @@ def run(ctx):
         return
     ngen = 900 if quick else 30000
     nal = 600 if quick else 6000
+    # the pinned regression corpus (corpus/c29/regress.txt) runs first, on every seed and tier
+    rcp, prow, errp = run_resuming(ctx, [binp, "pinned"], "pinned")
+    if rcp or len(prow) < 8:
+        ctx.broken.append(("harness-run", "pinned corpus corpus/c29/regress.txt not run: rc=%d rows=%d %s" % (rcp, len(prow), errp[-300:])))
     rc, rows, err = run_resuming(ctx, [binp, "gen", "-seed", str(ctx.seed), "-n", str(ngen)], "gen")
+    rows = prow + rows
     rc2, crow, err2 = run_resuming(ctx, [binp, "corpus", "-in", REPO], "corpus")
     rc3, arow, err3 = ctx.jsonl([binp, "alias", "-seed", str(ctx.seed), "-n", str(nal)], timeout=900)
     if rc or rc2 or rc3 or not rows or not crow or not arow:
